@@ -1054,7 +1054,7 @@ func splitTop(s string) []string {
 }
 
 var traceVocab = map[string]bool{"ncalls": true, "called": true, "arg1": true, "arg2": true, "arg3": true, "arg4": true, "arg5": true, "arg6": true,
-	"result": true, "result2": true, "resultb": true, "resultok": true, "nvarargs": true, "sliceArg": true, "sliceArg2": true, "sliceRes": true, "visited": true}
+	"result": true, "result2": true, "resultb": true, "resultok": true, "nvarargs": true, "sliceArg": true, "sliceArg2": true, "sliceRes": true, "visited": true, "callee": true}
 
 // mentionsTrace: the expression speaks about the ghost call log of the activation it belongs to. Such a
 // clause is an obligation of that function only; it must never be assumed at a call site (the caller has
